@@ -232,6 +232,13 @@ func runWalk(ch choose.Chooser, cfg walkCfg) (*walkRes, error) {
 
 // drain: let everything settle (no more generator choices): settle, status tick, epoch tick, until nothing is submitted.
 func (r *walkRes) drain() {
+	// faults stop here: injected failures that no call has consumed yet are dropped, otherwise the quiescence rule below
+	// (no new certificate, nothing undecided) can be met while a status poll is still being failed
+	r.m.mu.Lock()
+	for k := range r.m.failNext {
+		delete(r.m.failNext, k)
+	}
+	r.m.mu.Unlock()
 	idle := 0
 	for i := 0; i < 40 && idle < 2; i++ {
 		before := len(r.m.certs)
